@@ -470,8 +470,10 @@ impl Session {
         }
     }
 
-    /// Runs one command with already-bound arguments (they must not contain `$`, `%` or a
-    /// backslash followed by one of them: binding would rewrite those).
+    /// Runs one command with the given argument values. The runner binds variables in every written
+    /// argument, so a value that contains `$`, `%` or a backslash is handed over through a temporary
+    /// variable (`dsmc::arg::<n>`, written as `${dsmc::arg::<n>}`: substituted values are inserted
+    /// verbatim) which is removed again after the call; other values are written as they are.
     pub fn call(&mut self, cmd: &str, args: &[&str]) -> Out {
         self.call_out(cmd, args, None)
     }
@@ -480,7 +482,22 @@ impl Session {
         use duckscript::types::instruction::{InstructionMetaInfo, ScriptInstruction};
         let mut si = ScriptInstruction::new();
         si.command = Some(cmd.into());
-        si.arguments = if args.is_empty() { None } else { Some(args.iter().map(|s| s.to_string()).collect()) };
+        let mut temps: Vec<String> = vec![];
+        let written: Vec<String> = args
+            .iter()
+            .enumerate()
+            .map(|(n, a)| {
+                if a.contains('$') || a.contains('%') || a.contains('\\') {
+                    let name = format!("dsmc::arg::{}", n);
+                    self.variables.insert(name.clone(), a.to_string());
+                    temps.push(name.clone());
+                    format!("${{{}}}", name)
+                } else {
+                    a.to_string()
+                }
+            })
+            .collect();
+        si.arguments = if args.is_empty() { None } else { Some(written) };
         si.output = output.map(|s| s.to_string());
         let ins = Instruction {
             meta_info: InstructionMetaInfo::new(),
@@ -491,6 +508,9 @@ impl Session {
         let r = crate::engine::guarded(|| {
             duckscript::runner::run_instruction(commands, variables, state, &vec![], ins, 0, &mut env)
         });
+        for t in temps {
+            self.variables.remove(&t);
+        }
         match r {
             Err(p) => Out::Panic(p),
             Ok((CommandResult::Continue(v), _)) => Out::Val(v),
@@ -540,3 +560,23 @@ pub const UNICODE_WHITE_SPACE: [char; 25] = [
     '\u{9}', '\u{a}', '\u{b}', '\u{c}', '\u{d}', ' ', '\u{85}', '\u{a0}', '\u{1680}', '\u{2000}', '\u{2001}', '\u{2002}', '\u{2003}', '\u{2004}', '\u{2005}', '\u{2006}', '\u{2007}', '\u{2008}', '\u{2009}',
     '\u{200a}', '\u{2028}', '\u{2029}', '\u{202f}', '\u{205f}', '\u{3000}',
 ];
+
+/// A one-character alphabet defined by rule rather than by list: every printable ASCII character,
+/// the upper half of Latin-1, every Unicode white-space character except LF and CR, and for every
+/// character that means something to the scanner the characters of eight other planes that share
+/// its low byte.
+pub fn wide_chars() -> Vec<char> {
+    let mut chars: Vec<char> = (0x21u32..0x7f).filter_map(char::from_u32).collect();
+    chars.extend((0xa0u32..0x100).filter_map(char::from_u32));
+    chars.extend(UNICODE_WHITE_SPACE.iter().copied().filter(|c| !matches!(c, ' ' | '\n' | '\r')));
+    for syntax in [' ', '\t', '\n', '\r', '"', '#', '\\', '=', ':', '!', '$', '%', '{', '}', '\''] {
+        for plane in [0x100u32, 0x400, 0x2000, 0x2100, 0x3000, 0xff00, 0x1f600, 0xe0000] {
+            if let Some(c) = char::from_u32(plane + syntax as u32) {
+                chars.push(c);
+            }
+        }
+    }
+    chars.sort();
+    chars.dedup();
+    chars
+}
